@@ -172,6 +172,8 @@ func tolFor(model string) float64 {
 func engineSplit(rc *RunCtx) *Outcome {
 	o := &Outcome{}
 	w := rc.W
+	domains.WholeSpecRange = true
+	defer func() { domains.WholeSpecRange = false }()
 	names := stateful()
 	name := names[w.Choose(len(names))]
 	desc := sim.Catalog[name]().Description()
